@@ -44,3 +44,71 @@ for name, dflt, stops, text in (
                    bound='hooks with 0..3 registered callbacks (three distinct functions), every combination of int return values; NULL hook',
                    sub='real %s (+ real htp_list_array_size / get): %s. This is the behaviour the event-logging stub of the C05 transition units assumes.' % (name, text),
                    assumes=['callbacks are harness functions that log their identity and answer an arbitrary int', 'the hook object is laid out by the harness the way htp_hook_create / htp_hook_register lay it out (array list, capacity 4, any ring-buffer start)']))
+
+# ---- C18: ownership of hooks (register / copy / destroy) under allocation failure ---------------------------------------------------
+OWN_H = r'''
+/* MODEL of the array list for this unit (the real push carries a realloc + symbolic memcpy path that does not bit-blast here; the real list is
+ * units htp_list_array_*): fixed capacity as requested at creation, allocation may fail, push refuses when full */
+htp_list_array_t *htp_list_array_create(size_t size) {
+  htp_list_array_t *l = calloc(1, sizeof(*l)); if (l == NULL) return NULL;
+  l->elements = malloc(4 * sizeof(void *)); if (l->elements == NULL) { free(l); return NULL; }
+  l->max_size = 4; return l; }
+void htp_list_array_destroy(htp_list_array_t *l) { if (l == NULL) return; free(l->elements); free(l); }
+size_t htp_list_array_size(const htp_list_array_t *l) { return l->current_size; }
+void *htp_list_array_get(const htp_list_array_t *l, size_t idx) { return idx < l->current_size ? l->elements[idx] : NULL; }
+htp_status_t htp_list_array_push(htp_list_array_t *l, void *e) { if (l->current_size >= 4) return HTP_ERROR; l->elements[l->current_size++] = e; return HTP_OK; }
+static int ow_f1(void *p) { return 0; }
+static int ow_f2(void *p) { return 0; }
+void HARNESS(void) {
+  htp_hook_t *h = NULL; int n;
+  VASSUME(n >= 0 && n <= 2);
+  if (n >= 1 && htp_hook_register(&h, ow_f1) != HTP_OK) { VASSERT(h == NULL, "a failed first registration leaves no hook behind"); return; }
+  if (n >= 2) { htp_status_t rc = htp_hook_register(&h, ow_f2); VASSERT(h != NULL && htp_list_size(h->callbacks) == (rc == HTP_OK ? 2 : 1), "a failed later registration leaves the hook as it was"); }
+  htp_hook_t *copy = htp_hook_copy(h);
+  if (copy != NULL) {
+    VASSERT(h != NULL && copy != h && copy->callbacks != h->callbacks && htp_list_size(copy->callbacks) == htp_list_size(h->callbacks), "a copy is a distinct hook with as many callbacks");
+    for (size_t i = 0; i < 2; i++) if (i < htp_list_size(h->callbacks)) {
+      htp_callback_t *a = htp_list_get(h->callbacks, i), *b = htp_list_get(copy->callbacks, i);
+      VASSERT(a != b && a->fn == b->fn, "callback records are duplicated (not shared), same functions in the same order");
+    }
+  }
+  htp_hook_destroy(copy);
+  htp_hook_destroy(h);
+  CANARY(); }'''
+UNITS.append(U(name='c18_hook_register_copy_destroy', props=['C18', 'C19', 'C01'], kind='lemma', src=['htp_hooks.c'], harness=OWN_H,
+               defs={'quick': {}}, flags_add=['--unwind', '6', '--unwinding-assertions', '--memory-leak-check'], min_obl=50, timeout=(300, 600),
+               sub='htp_hook_register x 0..2 ; htp_hook_copy ; htp_hook_destroy of both: whichever allocation fails nothing is freed twice, used after free or leaked; a copy shares no record with its original '
+                   '(per-transaction hooks never alias the shared configuration\'s hooks), same functions in the same order',
+               assumes=['0..2 registered callbacks (the initial capacity of a hook is 4: no growth of the list on this path)', 'the array list is a MODEL inside this unit (create / destroy / size / get / push with the same allocation pattern as the real one; the real list is verified by the C17 units)',
+                        'every malloc/calloc may fail independently']))
+
+# ---- C18: htp_config_copy ; htp_config_destroy(copy) ; htp_config_destroy(original) ------------------------------------------------
+CFGCOPY_H = OWN_H[:OWN_H.index('static int ow_f1')] + r'''
+static int cc_f(void *p) { return 0; }
+void HARNESS(void) {
+  htp_cfg_t *cfg = calloc(1, sizeof(*cfg));                       /* a configuration with up to three hooks registered (any subset) */
+  if (cfg == NULL) return;
+  int a, b, c;
+  if (a && htp_hook_register(&cfg->hook_request_start, cc_f) != HTP_OK) { htp_config_destroy(cfg); return; }
+  if (b && htp_hook_register(&cfg->hook_request_line, cc_f) != HTP_OK) { htp_config_destroy(cfg); return; }
+  if (c && htp_hook_register(&cfg->hook_log, cc_f) != HTP_OK) { htp_config_destroy(cfg); return; }
+  htp_cfg_t *copy = htp_config_copy(cfg);
+  if (copy != NULL) {
+    VASSERT(copy != cfg, "a copy is a distinct object");
+    VASSERT((copy->hook_request_start != NULL) == (a != 0) && (copy->hook_request_line != NULL) == (b != 0) && (copy->hook_log != NULL) == (c != 0), "the copy has the hooks the original has");
+    VASSERT((!a || copy->hook_request_start != cfg->hook_request_start) && (!b || copy->hook_request_line != cfg->hook_request_line) && (!c || copy->hook_log != cfg->hook_log),
+            "no hook object is shared between the copy and the original (parsers that copy a configuration never write the shared one)");
+  }
+  htp_config_destroy(copy);
+  /* the ORIGINAL must be intact whatever happened to the copy: its hooks are still alive ... */
+  if (a) VASSERT(__CPROVER_r_ok(cfg->hook_request_start, sizeof(htp_hook_t)), "the original's hooks survive a failed copy");
+  if (b) VASSERT(__CPROVER_r_ok(cfg->hook_request_line, sizeof(htp_hook_t)), "the original's hooks survive a failed copy");
+  if (c) VASSERT(__CPROVER_r_ok(cfg->hook_log, sizeof(htp_hook_t)), "the original's hooks survive a failed copy");
+  htp_config_destroy(cfg);                                        /* ... and are freed exactly once (double-free obligations of the real teardown) */
+  CANARY(); }'''
+UNITS.append(U(name='c18_config_copy', props=['C18', 'C19', 'C01'], kind='lemma', src=['htp_config.c', 'htp_hooks.c'], harness=CFGCOPY_H,
+               defs={'quick': {}}, flags_add=['--unwind', '4', '--unwinding-assertions', '--memory-leak-check'], min_obl=50, timeout=(600, 900),
+               sub='htp_config_copy ; htp_config_destroy(copy) ; htp_config_destroy(original) with any subset of three hooks registered: whichever allocation fails inside the copy, the original '
+                   'configuration keeps its hooks (no use after free, no double free, no leak); a successful copy shares no hook object with the original',
+               assumes=['three of the twenty hook slots are exercised (first, second and last in copy order); every slot is copied by the same code pattern',
+                        'the array list is a MODEL inside this unit (same allocation pattern as the real one; the real list is verified by the C17 units)', 'every malloc/calloc may fail independently']))
